@@ -70,6 +70,18 @@ def cases(tier, seed):
                         for t2 in short[1::4]:
                             yield dict(served=served, sup=sup,
                                        ctx=[[1, ab1, t1], [3, ab2, t2]], seed=seed)
+    # several requestors negotiate with a FRESH entity at the same instant (whatever the
+    # entity builds lazily on first use is built while others already use it), with line-level
+    # pre-emption in every function of the association / entity modules
+    rh = random.Random('c09h/%d' % seed)
+    for i in range(120 if tier == 'quick' else 5000):
+        served, sup = rh.choice([c for c in cfgs if c[0] and c[1]])
+        reqs = []
+        for _ in range(rh.choice([2, 3, 3])):
+            ids = rh.sample(range(1, 64, 2), rh.choice([1, 2, 4, 8]))
+            reqs.append([[pid, rh.randrange(3), rh.choice(lists)] for pid in ids])
+        yield dict(hot=True, served=served, sup=sup, reqs=reqs, ctx=reqs[0],
+                   seed=seed * 100151 + i)
     n = 700 if tier == 'quick' else 20000
     for i in range(n):
         served, sup = rnd.choice(cfgs)
@@ -83,7 +95,78 @@ def cases(tier, seed):
                            rnd.choice(['CLI', 'B', 'CALLING_AE_TITLE'])])
 
 
+def _hot_case(case):
+    from pynetdicom2 import applicationentity
+    from .. import preempt
+    served = case['served']
+    sup = [TS4[i] for i in case['sup']]
+    world = SimWorld('c09h/%s' % case['seed'])
+    viol = []
+
+    def v(rule, detail):
+        viol.append({'sig': 'C09 %s concurrent-negotiation' % rule,
+                     'detail': '%s\ncase %r\nhandler errors %r' % (detail, case,
+                                                                   world.handler_errors[:1])})
+    pre = None
+    try:
+        def sentinel(asce, ctx, msg):
+            return None
+        sentinel.sop_classes = list(served)
+        ae = world.make_ae(applicationentity.AE, 'SRV', 11112, sup, 16384)
+        ae.add_scp(sentinel)
+        world.serve_ae(ae, ADDR)
+        outs = []
+        for k, req in enumerate(case['reqs']):
+            ctxs = [(pid, ABSTRACTS[ab], tuple(TS4[i] for i in tl)) for pid, ab, tl in req]
+            out = {'ctxs': ctxs}
+            outs.append(out)
+
+            def script(peer, out=out):
+                out['reply'] = peer.associate()
+                if isinstance(out['reply'], dict) and out['reply']['kind'] == 'A-ASSOCIATE-AC':
+                    peer.release()
+            pr = peers.ScriptedRequestor(world.sim, world.net, ADDR, ctxs, script=script)
+            world.spawn(pr.run, 'peer%d' % k, role='user')
+        pre = preempt.Preempter(world.sim, prob=0.3, park_prob=0.2, park_max=0.05,
+                                funcs={'accept'},
+                                files=('applicationentity.py', 'asceprovider.py'))
+        pre.install()
+        try:
+            world.run(tmax=300)
+            world.drain(1.0)
+        finally:
+            pre.uninstall()
+            pre = None
+        for k, out in enumerate(outs):
+            p = out.get('reply')
+            ctxs = out['ctxs']
+            if not isinstance(p, dict) or p.get('kind') != 'A-ASSOCIATE-AC':
+                v('no-associate-ac', 'requestor %d got %r' % (k, p))
+                continue
+            got = p['contexts']
+            if [c[0] for c in got] != [c[0] for c in ctxs]:
+                v('contexts-not-answered-once-in-order', 'requestor %d proposed %r answered %r' % (
+                    k, [c[0] for c in ctxs], [c[0] for c in got]))
+                continue
+            for (pid, ab, tss), (_, res, ts) in zip(ctxs, got):
+                should = ab in served and any(t in sup for t in tss)
+                if (res == 0) != should:
+                    v('accept-decision-wrong should_accept=%s' % should,
+                      'requestor %d ctx %r result %r ts %r; served %r supported %r' % (
+                          k, (pid, ab, tss), res, ts, served, sup))
+                elif res == 0 and (ts not in tss or ts not in sup):
+                    v('accepted-ts-not-proposed-and-supported',
+                      'requestor %d ctx %r answered ts %r' % (k, (pid, ab, tss), ts))
+        return _fin(world, viol, case, case['reqs'][0])
+    finally:
+        if pre is not None:
+            pre.uninstall()
+        world.close()
+
+
 def run_case(case):
+    if case.get('hot'):
+        return _hot_case(case)
     from pynetdicom2 import applicationentity
     served = case['served']
     sup = [TS4[i] for i in case['sup']]
